@@ -3,7 +3,7 @@
 # (equivalent to `git -C /repo apply patch.diff; ./vf check ...; git -C /repo checkout -- .` but leaves /repo alone, so that
 #  background runs using /repo are not disturbed)
 set -e
-D="$1"; TIER="${2:-quick}"
+D="$(cd "$1" && pwd)"; TIER="${2:-quick}"
 WT=/var/tmp/wt/seedrun
 PID=$(/venv/bin/python -c "import json,sys; print(json.load(open('$D/meta.json'))['property'])")
 git -C /repo worktree list | grep -q "$WT" || git -C /repo worktree add -q --detach "$WT" HEAD
